@@ -18,7 +18,8 @@ EXPLANATION = (
     'feasible search); (C17.3) numeric parameters are coerced (shares C08.1) and the text form of a number/boolean is plain str() '
     'of its value (no format spec, no rounding); (C17.4) simple maps: UPPER/LOWER/LEN/EXACT/TRIM/CONCATENATE shapes.'
     ' (C17.5) text constants reach the functions with exactly their characters (shared with C02.10); (C17.1) one obligation per table row.'
-    ' (C17.6) a witness workbook whose constant cells hold numbers, booleans and texts side by side: every text function of a constant equals what it gives with the constant alone in a workbook; 15 composition identities.')
+    ' (C17.6) a witness workbook whose constant cells hold numbers, booleans and texts side by side: every text function of a constant equals what it gives with the constant alone in a workbook; 15 composition identities.'
+    ' (C17.6) also text literals spelt like defined names, & chains of 260 operands, subjects outside the basic plane and texts that spell booleans.')
 NOT_DECIDED = 'the algebraic identities over all texts; the exact TRIM specification'
 TRUSTED = ['Python slice clipping semantics', 'workbook scenarios: pandas storage of range arrays as row-major rows, numpy on Python numbers (IEEE results, 64-bit integer wrap), dateutil.parser.parse rejecting texts that are no dates, openpyxl address arithmetic, inspect.signature built from the FunctionDef']
 
